@@ -60,7 +60,7 @@ theorem unlink_spec {l : List Nat} {h : Heap} (hL : Linked l h) {n : Nat} (hn : 
     rw [hp] at hnp; rw [hq] at hnn
     generalize he : exec procs0 innerRemoveStmts { h := h, node := some n, mark := mk, value := val } = e'
     simp [exec, execStmt, execSimples, execSimple, evalP, innerRemoveStmts, Node.getF, Node.setF,
-      hrn, hnp, hnn, hfn, hbn, hrq, Store.get_set] at he
+      hrn, hnp, hnn, hfn, hbn, hrq, hqn, hqn.symm, Store.get_set] at he
     subst he
     refine ⟨_, rfl, linked_erase hL hn ?_ ?_ ?_ ?_ ?_, ?_, ⟨?_, ?_⟩, rfl, rfl⟩
     · simp [hp, hq]
@@ -83,7 +83,7 @@ theorem unlink_spec {l : List Nat} {h : Heap} (hL : Linked l h) {n : Nat} (hn : 
     rw [hp] at hnp; rw [hq] at hnn
     generalize he : exec procs0 innerRemoveStmts { h := h, node := some n, mark := mk, value := val } = e'
     simp [exec, execStmt, execSimples, execSimple, evalP, innerRemoveStmts, Node.getF, Node.setF,
-      hrn, hnp, hnn, hfn, hbn, hrp, hpn.symm, Store.get_set] at he
+      hrn, hnp, hnn, hfn, hbn, hrp, hpn, hpn.symm, Store.get_set] at he
     subst he
     refine ⟨_, rfl, linked_erase hL hn ?_ ?_ ?_ ?_ ?_, ?_, ⟨?_, ?_⟩, rfl, rfl⟩
     · simp [hp]
@@ -110,7 +110,7 @@ theorem unlink_spec {l : List Nat} {h : Heap} (hL : Linked l h) {n : Nat} (hn : 
     rw [hp] at hnp; rw [hq] at hnn
     generalize he : exec procs0 innerRemoveStmts { h := h, node := some n, mark := mk, value := val } = e'
     simp [exec, execStmt, execSimples, execSimple, evalP, innerRemoveStmts, Node.getF, Node.setF,
-      hrn, hnp, hnn, hfn, hbn, hrp, hrq, hpn.symm, hqp, Store.get_set] at he
+      hrn, hnp, hnn, hfn, hbn, hrp, hrq, hpn, hpn.symm, hqn, hqn.symm, hqp, hqp.symm, Store.get_set] at he
     subst he
     refine ⟨_, rfl, linked_erase hL hn ?_ ?_ ?_ ?_ ?_, ?_, ⟨?_, ?_⟩, rfl, rfl⟩
     · simp [hp]
@@ -229,7 +229,7 @@ theorem moveBefore_exec {l : List Nat} {h : Heap} (hL : Linked l h) {n m : Nat} 
       rw [hpm] at hm1p
       generalize he : exec procs moveBeforeStmts { h := h, node := some n, mark := some m, value := val } = e'
       simp [exec, execStmt, execSimples, execSimple, evalP, evalArgs, moveBeforeStmts, hpr, hpr1, Node.getF,
-        Node.setF, hnm, hg1, hrn, hrm1, hm1p, hfm, hmn, Store.get_set] at he
+        Node.setF, hnm, hg1, hrn, hrm1, hm1p, hfm, hmn, hmn.symm, Store.get_set] at he
       subst he
       refine ⟨by simp, rfl, linked_insBefore hL1 hmk hnk ?_ ?_ ?_ ?_ ?_, ⟨?_, ?_⟩, ?_, ?_⟩
       · simp [hpm]
@@ -260,7 +260,8 @@ theorem moveBefore_exec {l : List Nat} {h : Heap} (hL : Linked l h) {n m : Nat} 
       rw [hpm] at hm1p
       generalize he : exec procs moveBeforeStmts { h := h, node := some n, mark := some m, value := val } = e'
       simp [exec, execStmt, execSimples, execSimple, evalP, evalArgs, moveBeforeStmts, hpr, hpr1, Node.getF,
-        Node.setF, hnm, hg1, hrn, hrm1, hm1p, hfm, hmn, hrp1, hpn, hpm', Store.get_set] at he
+        Node.setF, hnm, hg1, hrn, hrm1, hm1p, hfm, hmn, hmn.symm, hrp1, hpn, hpn.symm, hpm', hpm'.symm,
+        Store.get_set] at he
       subst he
       refine ⟨by simp, rfl, linked_insBefore hL1 hmk hnk ?_ ?_ ?_ ?_ ?_, ⟨?_, ?_⟩, ?_, ?_⟩
       · simp [hpm]
@@ -313,7 +314,7 @@ theorem moveAfter_exec {l : List Nat} {h : Heap} (hL : Linked l h) {n m : Nat} (
       rw [hpm] at hm1p
       generalize he : exec procs moveAfterStmts { h := h, node := some n, mark := some m, value := val } = e'
       simp [exec, execStmt, execSimples, execSimple, evalP, evalArgs, moveAfterStmts, hpr, hpr1, Node.getF,
-        Node.setF, hnm, hg1, hrn, hrm1, hm1p, hfm, hmn, Store.get_set] at he
+        Node.setF, hnm, hg1, hrn, hrm1, hm1p, hfm, hmn, hmn.symm, Store.get_set] at he
       subst he
       refine ⟨by simp, rfl, linked_insAfter hL1 hmk hnk ?_ ?_ ?_ ?_ ?_, ⟨?_, ?_⟩, ?_, ?_⟩
       · rfl
@@ -344,7 +345,8 @@ theorem moveAfter_exec {l : List Nat} {h : Heap} (hL : Linked l h) {n m : Nat} (
       rw [hpm] at hm1p
       generalize he : exec procs moveAfterStmts { h := h, node := some n, mark := some m, value := val } = e'
       simp [exec, execStmt, execSimples, execSimple, evalP, evalArgs, moveAfterStmts, hpr, hpr1, Node.getF,
-        Node.setF, hnm, hg1, hrn, hrm1, hm1p, hfm, hmn, hrp1, hpn, hpm', Store.get_set] at he
+        Node.setF, hnm, hg1, hrn, hrm1, hm1p, hfm, hmn, hmn.symm, hrp1, hpn, hpn.symm, hpm', hpm'.symm,
+        Store.get_set] at he
       subst he
       refine ⟨by simp, rfl, linked_insAfter hL1 hmk hnk ?_ ?_ ?_ ?_ ?_, ⟨?_, ?_⟩, ?_, ?_⟩
       · rfl
@@ -550,7 +552,7 @@ theorem insertBefore_spec {l : List Nat} {h : Heap} (hI : Inv l h) {m : Nat} (hm
     rw [hpm] at hmp
     generalize he : exec procs2 insertBeforeStmts { h := h, node := none, mark := some m, value := v } = e'
     simp [exec, execStmt, execSimples, execSimple, evalP, insertBeforeStmts, Node.getF, Node.setF,
-      hrm, hmp, hfm, hmn, hmn.symm, hrp, hpn, hpm', Store.get_set] at he
+      hrm, hmp, hfm, hmn, hmn.symm, hrp, hpn, hpn.symm, hpm', hpm'.symm, Store.get_set] at he
     subst he
     refine ⟨rfl, rfl, frame_first ⟨?_, ?_⟩ (fun hF => inv_of_linked_new hI
       (linked_insBefore hL hm hnl ?_ ?_ ?_ ?_ ?_) hF rfl rfl
@@ -622,7 +624,7 @@ theorem insertAfter_spec {l : List Nat} {h : Heap} (hI : Inv l h) {m : Nat} (hm 
     rw [hpm] at hmp
     generalize he : exec procs2 insertAfterStmts { h := h, node := none, mark := some m, value := v } = e'
     simp [exec, execStmt, execSimples, execSimple, evalP, insertAfterStmts, Node.getF, Node.setF,
-      hrm, hmp, hfm, hmn, hmn.symm, hrp, hpn, hpm', Store.get_set] at he
+      hrm, hmp, hfm, hmn, hmn.symm, hrp, hpn, hpn.symm, hpm', hpm'.symm, Store.get_set] at he
     subst he
     refine ⟨rfl, rfl, frame_first ⟨?_, ?_⟩ (fun hF => inv_of_linked_new hI
       (linked_insAfter hL hm hnl ?_ ?_ ?_ ?_ ?_) hF rfl rfl
@@ -688,7 +690,7 @@ theorem pushFront_spec {l : List Nat} {h : Heap} (hI : Inv l h) (v : Int) :
     have hfn : f ≠ h.nextId := fun e => hnl (e ▸ hfl)
     generalize he : exec procs2 pushFrontStmts { h := h, node := none, mark := none, value := v } = e'
     simp [exec, execStmt, execSimples, execSimple, evalP, pushFrontStmts, Node.getF, Node.setF,
-      hf, hbn, hrf, hfn, Store.get_set] at he
+      hf, hbn, hrf, hfn, hfn.symm, Store.get_set] at he
     subst he
     refine ⟨rfl, rfl, frame_first ⟨?_, ?_⟩ (fun hF => inv_of_linked_new hI
       (linked_cons hL hnl ?_ ?_ ?_ ?_ ?_) hF rfl rfl (by simp) (fun x hx => by simpa using hx)) ⟨?_, rfl⟩⟩
@@ -752,7 +754,7 @@ theorem pushBack_spec {l : List Nat} {h : Heap} (hI : Inv l h) (v : Int) :
     have hbn : b ≠ h.nextId := fun e => hnl (e ▸ hbl)
     generalize he : exec procs2 pushBackStmts { h := h, node := none, mark := none, value := v } = e'
     simp [exec, execStmt, execSimples, execSimple, evalP, pushBackStmts, Node.getF, Node.setF,
-      hb, hfn, hrb, hbn, Store.get_set] at he
+      hb, hfn, hrb, hbn, hbn.symm, Store.get_set] at he
     subst he
     refine ⟨rfl, rfl, frame_first ⟨?_, ?_⟩ (fun hF => inv_of_linked_new hI
       (linked_snoc hL hnl ?_ ?_ ?_ ?_ ?_) hF rfl rfl (by simp) (fun x hx => by simpa [or_comm] using hx)) ⟨?_, rfl⟩⟩
